@@ -295,6 +295,24 @@ theorem compareFrom_eq_specCompare (env : Env α) : ∀ (keys : List Key) (k : N
 
 end
 
+/-! ### keys after a deciding prefix are never consulted -/
+
+section
+variable {α : Type}
+theorem compareFrom_prefix (env : Env α) : ∀ (pre rest : List Key) (k : Nat) (a b : α),
+    compareFrom env pre k a b ≠ 0 → compareFrom env (pre ++ rest) k a b = compareFrom env pre k a b
+  | [], _, _, _, _, h => absurd (by simp [compareFrom]) h
+  | key :: pre, rest, k, a, b, h => by
+    rw [List.cons_append, compareFrom_cons, compareFrom_cons]
+    rw [compareFrom_cons] at h
+    simp only [ThreeWay.lex] at h ⊢
+    split
+    · rfl
+    · rename_i h0
+      rw [if_neg h0] at h
+      exact compareFrom_prefix env pre rest (k + 1) a b h
+end
+
 /-! ### a finite table that passes `tableOk` is a three-way total preorder on its indices -/
 
 theorem tableOk_threeWay' (m : Nat) (f : Nat → Nat → Int) (h : tableOk m f = true) :
